@@ -7,7 +7,7 @@ import ast
 from ..core import astutil as A
 from ..core.index import AnalysisError, FuncInfo
 from .common import (BASE_OUTLINE, OTF_OUTLINE, TTF_OUTLINE, T, attr_stores, calls_named, conds, every_origin,
-                     entry_funcs, facts, is_self_attr, key, membership_guard, name_is, need, same_as,
+                     entry_funcs, facts, may_conds, is_self_attr, key, membership_guard, name_is, need, same_as,
                      subscript_stores, where)
 
 BROAD = {"Exception", "BaseException", "Error", "InvalidFontData", "ufo2ft.errors.Error",
@@ -609,7 +609,24 @@ def r037(prog, chk):
     oku = len(u) == 1 and len(u[0].value.generators[0].ifs) == 1 and isinstance(u[0].value.generators[0].ifs[0], ast.Compare) and isinstance(u[0].value.generators[0].ifs[0].ops[0], ast.IsNot)
     chk.ob("R03.7", key(o, "os2-code-points"), oku, where(o), detail=T(u[0].value, 80) if u else "", nontrivial=False,
            message="OS/2 first/last character index: code points are filtered by something other than `is not None`")
-    chk.minimum("R03.7", 3)
+    # the working copy of a glyph declares exactly the code points of the source glyph
+    cg = prog.ix.get_func("ufo2ft.util:_copyGlyph")
+    src = cg.params()[0]
+    us = [(s_, t_, v_) for s_, t_, v_ in attr_stores(cg, "unicodes")]
+    need(len(us) == 1, f"cannot interpret {cg.short}: copy.unicodes")
+    v_ = us[0][2]
+
+    def whole_copy(e):
+        if isinstance(e, ast.Call) and A.callee_name(e) in ("list", "tuple", "deepcopy", "copy") and len(e.args) == 1:
+            return T(e.args[0]) == f"{src}.unicodes"
+        if isinstance(e, ast.Subscript) and isinstance(e.slice, ast.Slice) and e.slice.lower is None and e.slice.upper is None and e.slice.step is None:
+            return T(e.value) == f"{src}.unicodes"
+        if isinstance(e, ast.ListComp) and len(e.generators) == 1 and not e.generators[0].ifs and T(e.elt) in A.target_names(e.generators[0].target):
+            return T(e.generators[0].iter) == f"{src}.unicodes"
+        return False
+    chk.ob("R03.7", key(cg, "copy declares all code points"), whole_copy(v_) and not [g for g in may_conds(prog, cg, us[0][0]) if g.kind in ("if", "boolop")], where(cg, us[0][0]), detail=T(us[0][0], 70),
+           message=f"{cg.short}: the working copy of a glyph does not get every code point of the source glyph (`{T(v_, 60)}`): a declared code point (e.g. U+0000) never reaches the cmap")
+    chk.minimum("R03.7", 4)
 
 
 
@@ -686,6 +703,8 @@ def r039(prog, chk):
 
 
 MUTANTS = [
+    M("glyph copies drop U+0000 (seeded C03g)", "ufo2ft/util.py", "_copyGlyph",
+      "list(glyph.unicodes)", "[u for u in glyph.unicodes if 0 < u <= 0x10FFFF]", rule="R03.7"),
     M("recursive colour-layer copies keep their code points (seeded C03f)", "ufo2ft/filters/explodeColorLayerGlyphs.py", "ExplodeColorLayerGlyphsFilter._copyGlyph",
       "layerGlyph.unicodes = []", "pass", rule="R03.9"),
     M("designspace compiles order every master like the default source (seeded C03e)", "ufo2ft/_compilers/baseCompiler.py", "BaseInterpolatableCompiler._pre_compile_designspace",
